@@ -210,8 +210,15 @@ class RenameTie:
         st = self.state
         if st is None:
             return None, None
+        # the identifier under the cursor, as the handler determines it: the run of [A-Za-z0-9_] around the column
+        line = st["files"][o.file].split("\n")[o.line]
+        a, b = col, col
+        while a > 0 and (line[a - 1].isalnum() or line[a - 1] == "_"):
+            a -= 1
+        while b < len(line) and (line[b].isalnum() or line[b] == "_"):
+            b += 1
         m = self.model.call({"cmd": "classify_rename", "graph": st["graph"], "analysis": st["analysis"], "slices": st["slices"],
-                             "fuel": st["fuel"], "requests": [[st["fidx"][o.file], o.line, col, o.text]]}, timeout=60.0)
+                             "fuel": st["fuel"], "requests": [[st["fidx"][o.file], o.line, col, line[a:b]]]}, timeout=60.0)
         a = (m.get("answers") or [None])[0]
         if not isinstance(a, dict):
             return None, None
